@@ -308,38 +308,20 @@ func ruleRecoveryAtoms(c *Ctx) {
 	rs := "github.com/pingcap/kvproto/pkg/replication_modepb"
 	getSID := F(P.Method(rs, "RegionReplicationStatus", "GetStateId"))
 	getSt := F(P.Method(rs, "RegionReplicationStatus", "GetState"))
-	c.atomRejects(rule, cr, "start key != cursor ⇒ false", func(cond ssa.Value, pos bool) bool {
-		cl, ok := cond.(*ssa.Call)
-		if !ok || pos {
-			return false
-		}
-		f := cl.Call.StaticCallee()
-		return f != nil && f.Pkg != nil && f.Pkg.Pkg.Path() == "bytes" && f.Name() == "Equal"
-	}, boolReturn(false))
-	c.Check(hasComparison(cr, "==", resultOfCall(getSID), func(v ssa.Value) bool { return isLoadOf(v, stID) }), rule, "StateId == current state id in "+fnName(cr), "integrity reported under an older state id does not count", P.pos(cr.Pos()), "")
 	integ, _ := constIntObj(P.obj(rs, "RegionReplicationState_INTEGRITY_OVER_LABEL"))
-	c.Check(hasComparison(cr, "==", resultOfCall(getSt), isConstInt(integ)), rule, "State == INTEGRITY_OVER_LABEL in "+fnName(cr), "only regions that report integrity count", P.pos(cr.Pos()), "")
-	// both conjuncts decide the result: the returned value is the φ of the two comparisons
-	okBoth := false
-	for _, b := range cr.Blocks {
-		for _, ins := range b.Instrs {
-			if r, ok := ins.(*ssa.Return); ok && len(r.Results) == 1 {
-				if phi, ok := retVal(r, 0).(*ssa.Phi); ok {
-					hasFalse, hasCmp := false, false
-					for _, e := range phi.Edges {
-						if bv, ok := constBool(e); ok && !bv {
-							hasFalse = true
-						}
-						if bo, ok := e.(*ssa.BinOp); ok && bo.Op == token.EQL {
-							hasCmp = true
-						}
-					}
-					okBoth = hasFalse && hasCmp
-				}
+	// the region counts as recovered only if it starts at the cursor, reports the current state id and reports integrity
+	c.trueOnlyIf(rule, cr, []namedAtom{
+		{"start key == cursor", func(cond ssa.Value, pos bool) bool {
+			cl, ok := cond.(*ssa.Call)
+			if !ok || !pos {
+				return false
 			}
-		}
-	}
-	c.Check(okBoth, rule, "result of "+fnName(cr), "the conjunction of both comparisons", P.pos(cr.Pos()), "")
+			f := cl.Call.StaticCallee()
+			return f != nil && f.Pkg != nil && f.Pkg.Pkg.Path() == "bytes" && f.Name() == "Equal"
+		}},
+		{"StateId == current state id", relMatcher("==", resultOfCall(getSID), func(v ssa.Value) bool { return isLoadOf(v, stID) })},
+		{"State == INTEGRITY_OVER_LABEL", relMatcher("==", resultOfCall(getSt), isConstInt(integ))},
+	})
 	// estimateProgress says 1.0 only when the whole key space was walked
 	est := P.Method(rep, "ModeManager", "estimateProgress")
 	c.need(rule, est, "return 1.0", func(x ssa.Instruction) bool {
